@@ -79,7 +79,7 @@ def segment(rng, stream, mode):
     return cuts
 
 
-def scenario(seed, n_msgs, mode, lines, coalesce=False):
+def scenario(seed, n_msgs, mode, lines, coalesce=False, sctp=False):
     import bromelia.transport as TR
     import bromelia.setup as ST
     import bromelia.statemachine as SM
@@ -90,7 +90,9 @@ def scenario(seed, n_msgs, mode, lines, coalesce=False):
     s.keep_log = False
     rng = random.Random(seed * 11 + 3)
     log = []
-    sock = simlib.FakeSock(s)
+    sock = (simlib.FakeSctpSock if sctp else simlib.FakeSock)(s)
+    sctp_mods = simlib.FakeSctpModules(lambda: sock)
+    sctp_mods.__enter__()
     mods, undo = simlib.install(s, [TR, ST, SM], socket_factory=lambda *a: sock)
     RealQueue = mods.queue.Queue
 
@@ -114,7 +116,7 @@ def scenario(seed, n_msgs, mode, lines, coalesce=False):
             log.append(("w",))
         self.__dict__["_recv_data_stream_value"] = v
     TR.TcpConnection._recv_data_stream = property(_get_rs, _set_rs)
-    d = Diameter(config=dict(CFG))
+    d = Diameter(config=dict(CFG, TRANSPORT_TYPE="SCTP" if sctp else "TCP"))
     sent = make_stream(rng, n_msgs, big=("burst" if mode == "burst" else mode == "64k"))
     n_app = sum(1 for k, _ in sent if k == "app")
     got = []
@@ -171,6 +173,7 @@ def scenario(seed, n_msgs, mode, lines, coalesce=False):
     finally:
         s.kill()
         undo()
+        sctp_mods.__exit__()
         del TR.TcpConnection._recv_data_stream
     return {"status": status, "sent": sent, "got": got, "taken": taken, "log": log, "blocked": blocked, "excs": excs, "qids": qids,
             "steps": s.steps, "n_app": n_app, "node_closed": bool(state.get("node_closed")), "cea_len": len(state.get("cea_bytes", b"")), "undelivered_by_network": len(state["chunks"]) + len(sock.inbox) if state.get("cut") else -1}
@@ -310,10 +313,11 @@ def explore(chk, rng, n, tag, bursts=0):
         if mode == "bytes" and lines_mode:
             n_msgs = min(n_msgs, 3)                  # one byte per read under line-level hand-over is slow: keep it within the budget
         coalesce = rng.random() < 0.4
-        res = scenario(seed, n_msgs, mode, lines_mode, coalesce)
-        inp = {"op": "inbound", "seed": seed, "messages": n_msgs, "segmentation": mode, "line_level": lines_mode, "coalesced_with_cea": coalesce,
+        sctp = rng.random() < 0.25           # the SCTP classes (sctp_recv) over a scripted pysctp socket
+        res = scenario(seed, n_msgs, mode, lines_mode, coalesce, sctp)
+        inp = {"op": "inbound", "seed": seed, "messages": n_msgs, "segmentation": mode, "line_level": lines_mode, "coalesced_with_cea": coalesce, "sctp": sctp,
                "kinds": "".join("A" if k == "app" else "b" for k, _ in res["sent"])}
-        chk.case(inp, kind="%s:%s%s" % (tag, mode, ":lines" if lines_mode else ""))
+        chk.case(inp, kind="%s:%s%s%s" % (tag, mode, ":lines" if lines_mode else "", ":sctp" if sctp else ""))
         v = verdict(res)
         if res["status"] == "maxsteps" and res["undelivered_by_network"] != 0:
             chk.count("inconclusive:budget-exhausted-during-delivery")
@@ -397,7 +401,7 @@ def replay(path):
         bad = res["status"] != "finished" or res["excs"] or res["order"] != list(range(i["messages"]))
         print("now     : status=%s received=%s blocked=%s" % (res["status"], res["order"], res["blocked"]))
         return 1 if bad else 0
-    res = scenario(i["seed"], i["messages"], i["segmentation"], i["line_level"], i.get("coalesced_with_cea", False))
+    res = scenario(i["seed"], i["messages"], i["segmentation"], i["line_level"], i.get("coalesced_with_cea", False), i.get("sctp", False))
     now = verdict(res)
     print("now     : %s" % (("VIOLATED: %s %s" % (now[0], json.dumps(now[1], default=str)[:300])) if now else "the statement holds on this run"))
     return 1 if now else 0
